@@ -28,6 +28,7 @@ def check(ctx):
   ctx.rule('C12.R5', 'mux send loop: a frame is written only if its timeout event is not set; the one-shot discard callback is subscribed before the write with no yield after the check; the callback sends a Tdiscarded naming the tag; answered requests are not discarded')
   ctx.decline('byte-level observation of peers over all deadline positions is not decided')
   c01.r6(ctx)
+  observable_truthy(ctx)
   r2(ctx)
   cls = prog.cls('scales/pool/watermark.py', 'WatermarkPoolSink')
   c07.r6(ctx, cls)
@@ -77,6 +78,18 @@ def r2(ctx):
       ctx.ob('C12.R2', cb, 'a live deferred request is resumed', False, 'request dropped under facts %s' % fs, 'a request whose call is still pending must be sent')
   ctx.floor('C12.R2', 'resume paths', n, 1)
   gate_direct(ctx)
+
+
+def observable_truthy(ctx, rule='C12.R1'):
+  """The per-call timeout event is an Observable that several hops truth-test (`if evt:`, `if timeout_event and ...`) to tell
+  "a deadline exists" from "no deadline": an Observable must therefore never be falsy."""
+  prog = ctx.prog
+  obs = prog.cls('scales/observable.py', 'Observable')
+  bad = [m for c in prog.mro(obs) for m in ('__len__', '__bool__', '__nonzero__') if m in c.methods]
+  ctx.ob(rule, obs, 'an Observable is always truthy (no __len__ / __bool__)', not bad,
+         'Observable defines %s: an event without subscribers is falsy, so `if evt:` / `if timeout_event and ...` treat a call WITH a deadline as one without -- '
+         'the timed-out flag is never set, queued frames of timed-out calls are written and no discard is sent' % bad,
+         'the timeout event is how every hop learns that the caller already has TimeoutError')
 
 
 def gate_direct(ctx, rule='C12.R2'):
@@ -318,6 +331,17 @@ def r5(ctx, backpressure=True):
   t = U(ot.node).replace(' ', '')
   okd = 'self._CreateDiscardMessage(%s)' % tag in t and 'self.AsyncProcessRequest(None,' in t
   ctx.ob('C12.R5', ot, 'timeout in transit sends a discard for that tag through the transport', okd, '_OnTimeout changed', why)
+  # ... for every non-zero tag: tags are recycled, so nothing remembered about a tag number (a "discard already sent" set) may suppress it
+  for ev, ex in enum_paths(ctx, ot):
+    sent = [e for e in ev if e.kind == 'call' and U(e.node.func) == 'self.AsyncProcessRequest']
+    if sent:
+      continue
+    fs = FACTS(ev)
+    zero = (tag, False) in fs or ('not' + tag, True) in fs or ('%s==0' % tag, True) in fs or ('%s!=0' % tag, False) in fs
+    inactive = ('self.isActive', False) in fs or ('notself.isActive', True) in fs
+    ctx.ob('C12.R5', ot, 'a discard is skipped only for tag 0 (one-way) or a connection that is no longer open', zero or inactive,
+           '_OnTimeout sends nothing on a path with facts %s: a request that timed out on the wire of an open connection gets no discard notice' % sorted(fs)[:6],
+           why + '; tag numbers are recycled by the tag pool, per-tag memory of earlier discards goes stale')
   cd = prog.func(TM, 'SocketTransportSink._CreateDiscardMessage')
   tagp = cd.params[0]
   ctor = [c for c in walk_no_nested(cd.node) if isinstance(c, ast.Call) and U(c.func) == 'MethodDiscardMessage']
